@@ -1155,7 +1155,10 @@ const c19Rule = "codec: random variant value trees (21 primitive kinds with boun
 	"(matches, type mismatches, residual and missing fields, decimals around the precision bound) x 6 write paths, each file " +
 	"read through 4 read paths; the same with the variant column below repeated / repeated-repeated / optional / optional-repeated " +
 	"ancestors (several occurrences per row, LIST and object-with-LIST typed_value, first occurrence an array of >= 2 elements, " +
-	"with and without null/empty ancestors; 5 write x 4 read paths); distinct by schema + write path + row texts; " +
+	"with and without null/empty ancestors; 5 write x 4 read paths); every top-level file also read through the columnar " +
+	"VariantReader and through 4 evolved reader schemas (columns added before/between/after the variant, id dropped); larger files with " +
+	"dictionary-encoded typed_value leaves, small DictionaryMaxBytes/PageBufferSize, several row groups, page v1/v2 read through " +
+	"VariantReader with 3 window sizes; distinct by schema + write path + row texts; " +
 	"non-trivial = the column has a typed_value or sits below an optional/repeated ancestor"
 
 func RunC19Codec(ctx *core.Ctx) {
